@@ -1,6 +1,7 @@
 package gen
 
 import (
+	"fmt"
 	"math/rand"
 	"strings"
 
@@ -52,6 +53,9 @@ var extNames = []string{"a.b", "a/b", "a.b/c", "_.a_/_b._", "x1.y2", "app/doc.vi
 
 type DSLGen struct {
 	R *rand.Rand
+	// Big: many types / relations / conditions / parameters / restrictions / operands (beyond the small-slice
+	// thresholds of sort and of hand-written fast paths). Set per document by Doc with probability 1/40.
+	Big bool
 }
 
 func (g *DSLGen) pick(xs []string) string { return xs[g.R.Intn(len(xs))] }
@@ -70,8 +74,11 @@ func (g *DSLGen) name(ext bool) string {
 func (g *DSLGen) distinct(n int, ext bool) []string {
 	seen := map[string]bool{}
 	var out []string
-	for len(out) < n {
+	for tries := 0; len(out) < n; tries++ {
 		x := g.name(ext)
+		if tries > 20*n {
+			x = fmt.Sprintf("%s_%d", x, tries) // pool exhausted: derive further names
+		}
 		if !seen[x] {
 			seen[x] = true
 			out = append(out, x)
@@ -83,6 +90,7 @@ func (g *DSLGen) distinct(n int, ext bool) []string {
 var paramTypes = []string{"bool", "string", "int", "uint", "double", "duration", "timestamp", "ipaddress"}
 var condNames = []string{"c1", "is_valid", "non_expired", "in_range", "x-cond", "_c", "cond2"}
 var condExprs = []string{
+	"s == \"naïve ü 日本\"", "'😀' in l",
 	"x < 10", "a == b && c != d", "x in [1, 2, 3]", "ip.in_cidr(cidr)", "t + d > now",
 	"m[\"k\"] == 'v'", "!(a || b) ? c : d", "x > 1.5e3 && y <= 0x1F", "s.startsWith(\"a b\")",
 	"a ==\n    b", "size(l) >= 1u", "-x * (y / z) - 1", "true || false || null == x",
@@ -95,11 +103,18 @@ func (g *DSLGen) Doc(modular bool) *Doc {
 	if modular {
 		d.Module = g.pick([]string{"core", "org", "model", "type", "a-b", "extend", "m1"})
 	}
+	g.Big = r.Intn(40) == 0
 	nT := r.Intn(5)
+	if g.Big {
+		nT = 8 + r.Intn(10)
+	}
 	tnames := g.distinct(nT, true)
 	nC := 0
 	if r.Intn(3) == 0 {
 		nC = 1 + r.Intn(3)
+	}
+	if g.Big {
+		nC = 5 + r.Intn(3)
 	}
 	cn := map[string]bool{}
 	for len(d.Conds) < nC {
@@ -110,9 +125,12 @@ func (g *DSLGen) Doc(modular bool) *Doc {
 		cn[n] = true
 		c := Cond{Name: n, Expr: g.pick(condExprs)}
 		np := 1 + r.Intn(3)
+		if g.Big {
+			np = 8 + r.Intn(5)
+		}
 		pn := map[string]bool{}
 		for len(c.Params) < np {
-			p := g.pick([]string{"x", "y", "a", "ip", "cidr", "now", "t", "l", "m", "param_1", "p-q", "model", "type"})
+			p := g.pick([]string{"x", "X", "y", "a", "ip", "cidr", "now", "t", "l", "m", "param_1", "p-q", "model", "type", "b", "c", "d", "e1", "f_2", "g-h"})
 			if pn[p] {
 				continue
 			}
@@ -139,6 +157,9 @@ func (g *DSLGen) Doc(modular bool) *Doc {
 		if r.Intn(4) == 0 {
 			nR = 0
 		}
+		if g.Big && r.Intn(3) == 0 {
+			nR = 13 + r.Intn(12)
+		}
 		rn := g.distinct(nR, true)
 		for _, n := range rn {
 			td.Rels = append(td.Rels, Relation{Name: n, Expr: g.relDef(0, tnames, rn, condList, true)})
@@ -150,6 +171,9 @@ func (g *DSLGen) Doc(modular bool) *Doc {
 
 func (g *DSLGen) restrictions(tnames, rnames, conds []string) []Restriction {
 	n := 1 + g.R.Intn(4)
+	if g.Big && g.R.Intn(3) == 0 {
+		n = 13 + g.R.Intn(8)
+	}
 	var out []Restriction
 	for i := 0; i < n; i++ {
 		rs := Restriction{Type: g.pick(tnames)}
@@ -201,6 +225,9 @@ func (g *DSLGen) relDef(depth int, tnames, rnames, conds []string, allowDirect b
 	n := 1
 	if op != "butnot" {
 		n = 1 + r.Intn(3)
+		if g.Big && r.Intn(4) == 0 {
+			n = 13 + r.Intn(6)
+		}
 	}
 	e := &Expr{Kind: op, Kids: []*Expr{first}}
 	for i := 0; i < n; i++ {
